@@ -262,8 +262,10 @@ class SInt:
         if isinstance(o, int) and not isinstance(o, bool) and o > 0:
             from . import fp
 
-            if fp.IEEE:
+            if fp.IEEE and not (fp.USE_MS_FLOOR_LEMMA and self.tag is not None and self.tag[0] == "micro_of" and o == 1000):
                 return fp.int_div_const(self.z, o)
+            # (with USE_MS_FLOOR_LEMMA: int(microsecond / 1000) * 1000 is taken exact — proved under IEEE
+            #  rounding for all 10^6 values by C13's ieee-ms-floor harness, which switches the lemma off)
             r = SRatio(self.z, o)
             if self.tag is not None and self.tag[0] == "micro_of" and o == 1000:
                 r.tag = ("microdiv_of", self.tag[1])
